@@ -219,6 +219,34 @@ theorem trace_spec [CommRing R] (cfg : Cfg R) {m : ℕ} (cs : List (ℕ × ℕ))
         · rw [← hrest]; exact hmem
         · rw [hrest]; exact List.mem_cons_of_mem _ hmem
 
+/-- the sum of the moduli of the overwritten entries is at most `(#cells)·ε` when each of them is at most `ε` -/
+theorem trace_sum_le (cfg : Cfg ℂ) {m : ℕ} (cs : List (ℕ × ℕ)) (st : St ℂ m) (ε : ℝ) (hε0 : 0 ≤ ε)
+    (hε : ∀ r ∈ trace cfg st cs, ‖r.z‖ ≤ ε) :
+    ((trace cfg st cs).map fun r => ‖r.z‖).sum ≤ (cs.length : ℝ) * ε := by
+  have h1 : ((trace cfg st cs).map fun r => ‖r.z‖).sum ≤
+      ((trace cfg st cs).map fun r => ‖r.z‖).length • ε := by
+    apply List.sum_le_card_nsmul
+    intro x hx
+    simp only [List.mem_map] at hx
+    obtain ⟨r, hr, rfl⟩ := hx
+    exact hε r hr
+  refine le_trans h1 ?_
+  rw [List.length_map, nsmul_eq_mul]
+  apply mul_le_mul_of_nonneg_right _ hε0
+  exact_mod_cast trace_length_le cfg cs st
+
+/-- right multiplication by a diagonal of unit-modulus entries does not change the Frobenius norm -/
+theorem frob_mul_unit_diagonal {m : ℕ} (A : Matrix (Fin m) (Fin m) ℂ) (d : Fin m → ℂ) (hd : ∀ i, ‖d i‖ = 1) :
+    frob (A * Matrix.diagonal d) = frob A := by
+  unfold frob frob2
+  congr 1
+  apply Finset.sum_congr rfl
+  intro i _
+  apply Finset.sum_congr rfl
+  intro j _
+  rw [Matrix.mul_diagonal, Complex.normSq_mul, Complex.normSq_eq_norm_sq (d j), hd j]
+  simp
+
 theorem range_sum_mul_two : ∀ m : ℕ, (List.range m).sum * 2 = m * (m - 1)
   | 0 => by simp
   | 1 => by simp
